@@ -75,16 +75,16 @@ theorem spec_notChar (f : Follow) (t : Text) (x : Char) (hs : FollowSpec f t) (h
       · rw [e]; intro e'; injection e' with e'; exact h.1 e'.symm
   | unknown => simp [Follow.notChar] at h
 
-theorem spec_notCharCI (f : Follow) (t : Text) (x : Char) (hs : FollowSpec f t) (h : f.notCharCI x = true) :
-    tailSafe [x] t = true := by
-  have key : ∀ (c : Char), t.head? = some c → asciiLower c ≠ x → tailSafe [x] t = true := by
+theorem spec_notCharCI (cu : Culture) (f : Follow) (t : Text) (x : Char) (hs : FollowSpec f t)
+    (h : f.notCharCI (lowC cu) x = true) : tailSafe (lowC cu) [x] t = true := by
+  have key : ∀ (c : Char), t.head? = some c → lowC cu c ≠ x → tailSafe (lowC cu) [x] t = true := by
     intro c hc hne
     cases ho : t with
     | nil => rfl
     | cons y tl =>
       rw [ho] at hc; simp only [List.head?_cons, Option.some.injEq] at hc
       rw [tailSafe_single_cons, hc]; simpa using hne
-  have dot : asciiLower '.' = '.' := by decide
+  have dot : lowC cu '.' = '.' := lowC_dot cu
   cases f with
   | stop => simp only [FollowSpec] at hs; rw [hs]; rfl
   | char c =>
@@ -96,7 +96,7 @@ theorem spec_notCharCI (f : Follow) (t : Text) (x : Char) (hs : FollowSpec f t) 
     simp only [Follow.notCharCI, Bool.not_eq_true'] at h
     obtain ⟨d, e, hd⟩ := hs
     refine key d e ?_
-    rw [asciiLower_digit d hd]
+    rw [lowC_digit cu d hd]
     intro e'; rw [e'] at hd; rw [hd] at h; cases h
   | dotOr oc =>
     cases oc with
@@ -114,12 +114,12 @@ theorem spec_notCharCI (f : Follow) (t : Text) (x : Char) (hs : FollowSpec f t) 
       · exact key '.' e (by rw [dot]; exact fun e' => h.1 e'.symm)
   | unknown => simp [Follow.notCharCI] at h
 
-theorem spec_danger (f : Follow) (t : Text) (ds : List Char) (hs : FollowSpec f t) (h : ds.all f.notCharCI = true) :
-    tailSafe ds t = true := by
+theorem spec_danger (cu : Culture) (f : Follow) (t : Text) (ds : List Char) (hs : FollowSpec f t)
+    (h : ds.all (f.notCharCI (lowC cu)) = true) : tailSafe (lowC cu) ds t = true := by
   apply tailSafe_of_forall
   intro x hx
   rw [List.all_eq_true] at h
-  exact spec_notCharCI f t x hs (h x hx)
+  exact spec_notCharCI cu f t x hs (h x hx)
 
 /-! ## `followF`: the follow of a step list that is followed by more text -/
 
@@ -227,19 +227,19 @@ theorem delimitedF_stepsOK (cu : Culture) (used : Nat) (get : Getter) (fo : Foll
         exact ⟨hvs, fun _ => ⟨spec_notChar _ _ '-' hfs hd1.1, spec_notChar _ _ '+' hfs hd1.2⟩⟩
       | amPm count =>
         simp only [delimStep, textStepOK, Bool.and_eq_true] at hd1
-        exact ⟨hvs, hd1.1, spec_danger _ _ _ hfs hd1.2⟩
+        exact ⟨hvs, hd1.1, spec_danger cu _ _ _ hfs hd1.2⟩
       | monthText count =>
         simp only [delimStep, textStepOK, Bool.and_eq_true] at hd1
-        exact ⟨hvs, hd1.1, spec_danger _ _ _ hfs hd1.2⟩
+        exact ⟨hvs, hd1.1, spec_danger cu _ _ _ hfs hd1.2⟩
       | dayText count =>
         simp only [delimStep, textStepOK, Bool.and_eq_true] at hd1
-        exact ⟨hvs, hd1.1, spec_danger _ _ _ hfs hd1.2⟩
+        exact ⟨hvs, hd1.1, spec_danger cu _ _ _ hfs hd1.2⟩
       | era =>
         simp only [delimStep, textStepOK, Bool.and_eq_true] at hd1
-        exact ⟨hvs, hd1.1, spec_danger _ _ _ hfs hd1.2⟩
+        exact ⟨hvs, hd1.1, spec_danger cu _ _ _ hfs hd1.2⟩
       | eraC cal =>
         simp only [delimStep, textStepOK, Bool.and_eq_true] at hd1
-        exact ⟨hvs, hd1.1, spec_danger _ _ _ hfs hd1.2⟩
+        exact ⟨hvs, hd1.1, spec_danger cu _ _ _ hfs hd1.2⟩
       | calendar => exact hvs
     · exact ih (lastSafe safe s) (buf ++ outStep cu used get s) hd2
         (fun hs => lastSafe_sound cu used get safe buf s hvs hb hs) hvss
